@@ -39,6 +39,25 @@
 //!   C08.rollback.repeat     a checkpoint that was rolled back to, and every checkpoint listed before
 //!                           that rollback, is still listed and can be rolled back to afterwards
 //!
+//!   C08.restore.store_variants   the raw-store restore clause over EVERY public TensorStore constructor
+//!                           (kind "variants", see `VARIANTS`): every probe of the engine view plus get / exists
+//!                           of a fixed key universe, scan / scan_count / scan_filter_map of fixed prefixes and
+//!                           len after restore_from_bytes == the same probes at snapshot_bytes, in place (after
+//!                           further writes / deletes / clear) and into a fresh store of each variant; point
+//!                           lookups and scans agree with each other; keys written after the restore read back,
+//!                           are listed, can be overwritten and deleted (and restored keys too)
+//!   C08.restore.filter_unseen    the same clause for the input class "the destination store has a Bloom filter
+//!                           that has not seen the snapshot's keys" (fresh store with a filter, or `clear` after
+//!                           the snapshot); a case belongs to this obligation by its INPUT, never by its outcome
+//!   C08.rollback.choice_by_name  (kind "choice") >= 3 retained checkpoints with distinct database states whose
+//!                           NAMES are related (proper prefix, case only, spaces, quotes, > 28 chars with a common
+//!                           28-char prefix, a name equal to / a prefix of another checkpoint's id text), every
+//!                           creation order; ROLLBACK by name and, as a control, by id must give the view recorded
+//!                           at exactly the checkpoint the text designates (when a text is the id of one
+//!                           checkpoint and the name of another: the view of one of those two).  Driver mgr_sep:
+//!                           every target in turn in one world; driver router (text, blobs inside the data
+//!                           store): one rollback per world.  Two checkpoints never share a name here.
+//!
 //! On the tree this was written against restore.view, rollback.queries and retention.rollback hold;
 //! restore.slabs (lossy tensor-train snapshot of the embedding slab), rollback.derived / counters
 //! (engine-resident indexes and counters are not rebuilt by a rollback), retention (creation time
@@ -56,7 +75,7 @@ use std::collections::HashMap;
 use std::sync::Arc;
 use tensor_blob::{BlobConfig, BlobStore};
 use tensor_checkpoint::{CheckpointConfig, CheckpointManager};
-use tensor_store::{ScalarValue, TensorData, TensorStore, TensorValue};
+use tensor_store::{ScalarValue, TensorData, TensorStore, TensorValue, WalConfig};
 use vector_engine::VectorEngine;
 
 const OB_RESTORE: &str = "C08.restore.view";
@@ -67,6 +86,9 @@ const OB_COUNTERS: &str = "C08.rollback.counters";
 const OB_RETAIN: &str = "C08.retention";
 const OB_RETAIN_RB: &str = "C08.retention.rollback";
 const OB_REPEAT: &str = "C08.rollback.repeat";
+const OB_VARIANTS: &str = "C08.restore.store_variants";
+const OB_UNSEEN: &str = "C08.restore.filter_unseen";
+const OB_CHOICE: &str = "C08.rollback.choice_by_name";
 
 /// mutation alphabet; 0..11 is the stated domain, 11..14 are overwrite variants (update in place)
 const OPS: [&str; 14] = [
@@ -97,7 +119,12 @@ struct World {
     router: Option<QueryRouter>,
     cp: Cp,
     post_seq: std::cell::Cell<i64>,
+    /// raw key writes go through put_durable / delete_durable (WAL-backed store variants)
+    durable: bool,
 }
+
+/// a string literal of the statement syntax: single quotes, embedded quote doubled, backslash escaped
+fn lit(s: &str) -> String { format!("'{}'", s.replace('\\', "\\\\").replace('\'', "''")) }
 
 fn sval(s: &str) -> TensorData {
     let mut t = TensorData::new();
@@ -114,7 +141,7 @@ impl World {
                 let mut router = QueryRouter::with_shared_store(store.clone());
                 router.init_blob().map_err(|e| format!("init_blob: {e}"))?;
                 router.init_checkpoint_with_config(cfg).map_err(|e| format!("init_checkpoint: {e}"))?;
-                Ok(World { store, rel: None, graph: None, vec: None, router: Some(router), cp: Cp::Router, post_seq: std::cell::Cell::new(0) })
+                Ok(World { store, rel: None, graph: None, vec: None, router: Some(router), cp: Cp::Router, post_seq: std::cell::Cell::new(0), durable: false })
             },
             _ => {
                 let rel = Arc::new(RelationalEngine::with_store(store.clone()));
@@ -127,10 +154,19 @@ impl World {
                     let blob = rt.block_on(BlobStore::new(blob_store, BlobConfig::default())).map_err(|e| format!("blob: {e}"))?;
                     Cp::Mgr { mgr: CheckpointManager::new(Arc::new(tokio::sync::Mutex::new(blob)), cfg), rt }
                 } else { Cp::None };
-                Ok(World { store, rel: Some(rel), graph: Some(graph), vec: Some(vec), router: None, cp, post_seq: std::cell::Cell::new(0) })
+                Ok(World { store, rel: Some(rel), graph: Some(graph), vec: Some(vec), router: None, cp, post_seq: std::cell::Cell::new(0), durable: false })
             },
         }
     }
+    /// engines on an existing store (any constructor variant), no checkpoint driver
+    fn on_store(store: TensorStore, durable: bool) -> World {
+        let rel = Arc::new(RelationalEngine::with_store(store.clone()));
+        let graph = Arc::new(GraphEngine::with_store(store.clone()));
+        let vec = Arc::new(VectorEngine::with_store(store.clone()));
+        World { store, rel: Some(rel), graph: Some(graph), vec: Some(vec), router: None, cp: Cp::None, post_seq: std::cell::Cell::new(0), durable }
+    }
+    fn kput(&self, k: String, t: TensorData) -> bool { if self.durable { self.store.put_durable(k, t).is_ok() } else { self.store.put(k, t).is_ok() } }
+    fn kdel(&self, k: &str) -> bool { if self.durable { self.store.delete_durable(k).is_ok() } else { self.store.delete(k).is_ok() } }
     fn rel(&self) -> &RelationalEngine { match &self.router { Some(r) => r.relational(), None => self.rel.as_ref().unwrap() } }
     fn graph(&self) -> &GraphEngine { match &self.router { Some(r) => r.graph(), None => self.graph.as_ref().unwrap() } }
     fn vec(&self) -> &VectorEngine { match &self.router { Some(r) => r.vector(), None => self.vec.as_ref().unwrap() } }
@@ -176,7 +212,7 @@ impl World {
     fn put_keys(&self, n: &str, s: &str, x: f32) -> bool {
         let mut e = sval(s);
         e.set("_embedding", TensorValue::Vector((0..384).map(|i| if i % 7 == 0 { x } else { 0.125 }).collect()));
-        self.store.put(format!("kv:k{n}"), sval(s)).is_ok() & self.store.put(format!("_cache:c{n}"), sval(s)).is_ok() & self.store.put(format!("emb:raw{n}"), e).is_ok()
+        self.kput(format!("kv:k{n}"), sval(s)) & self.kput(format!("_cache:c{n}"), sval(s)) & self.kput(format!("emb:raw{n}"), e)
     }
 
     fn build_pre(&self, pre: &Value) -> Result<(), String> {
@@ -217,7 +253,9 @@ impl World {
             "del_emb" => if txt { self.text("EMBED DELETE 'e1'").is_ok() } else { self.vec().delete_embedding("e1").is_ok() },
             "put_key" => self.put_keys("2", "two", 0.5),
             "upd_key" => self.put_keys("1", "uno", 0.75),
-            "del_key" => { let a = self.store.delete("kv:k1").is_ok(); let b = self.store.delete("_cache:c1").is_ok(); let c = self.store.delete("emb:raw1").is_ok(); a && b && c },
+            "del_key" => { let a = self.kdel("kv:k1"); let b = self.kdel("_cache:c1"); let c = self.kdel("emb:raw1"); a && b && c },
+            // (kind "variants" only) the public delete-everything
+            "clear" => { self.store.clear(); true },
             _ => false,
         }
     }
@@ -227,7 +265,7 @@ impl World {
         match &self.cp {
             Cp::Mgr { mgr, rt } => rt.block_on(mgr.create(Some(name), &self.store)).map_err(|e| e.to_string()),
             Cp::Router => {
-                let v = self.text(&format!("CHECKPOINT '{name}'"))?;
+                let v = self.text(&format!("CHECKPOINT {}", lit(name)))?;
                 let s = v.get("Value").and_then(Value::as_str).ok_or_else(|| format!("unexpected CHECKPOINT result {v}"))?;
                 s.strip_prefix("Checkpoint created: ").map(str::to_string).ok_or_else(|| format!("unexpected CHECKPOINT result {s}"))
             },
@@ -237,7 +275,7 @@ impl World {
     fn cp_rollback(&self, target: &str) -> Result<(), String> {
         match &self.cp {
             Cp::Mgr { mgr, rt } => rt.block_on(mgr.rollback(target, &self.store)).map_err(|e| e.to_string()),
-            Cp::Router => self.text(&format!("ROLLBACK TO '{target}'")).map(|_| ()),
+            Cp::Router => self.text(&format!("ROLLBACK TO {}", lit(target))).map(|_| ()),
             Cp::None => Err("no checkpoint driver".into()),
         }
     }
@@ -248,6 +286,18 @@ impl World {
             Cp::Router => {
                 let r = self.router.as_ref().unwrap().execute_parsed("CHECKPOINTS").map_err(|e| e.to_string())?;
                 match r { query_router::QueryResult::CheckpointList(l) => Ok(l.into_iter().map(|c| c.id).collect()), o => Err(format!("unexpected CHECKPOINTS result {o:?}")) }
+            },
+            Cp::None => Err("no checkpoint driver".into()),
+        }
+    }
+
+    /// listed (id, name) pairs
+    fn cp_list_named(&self) -> Result<Vec<(String, String)>, String> {
+        match &self.cp {
+            Cp::Mgr { mgr, rt } => rt.block_on(mgr.list(None)).map(|l| l.into_iter().map(|c| (c.id, c.name)).collect()).map_err(|e| e.to_string()),
+            Cp::Router => {
+                let r = self.router.as_ref().unwrap().execute_parsed("CHECKPOINTS").map_err(|e| e.to_string())?;
+                match r { query_router::QueryResult::CheckpointList(l) => Ok(l.into_iter().map(|c| (c.id, c.name)).collect()), o => Err(format!("unexpected CHECKPOINTS result {o:?}")) }
             },
             Cp::None => Err("no checkpoint driver".into()),
         }
@@ -628,12 +678,285 @@ fn eval_repeat(case: &Value) -> Vec<Outcome> {
     vec![Outcome { ob: OB_REPEAT, ok: problems.is_empty(), detail: problems.join(" || "), nontrivial: true }]
 }
 
+
+// ---------------------------------------------------------------------------------------------
+// kind "variants": the restore clause over every public TensorStore constructor
+// ---------------------------------------------------------------------------------------------
+
+/// every way the public API constructs a TensorStore (all start EMPTY; the file-based ones are built
+/// from the snapshot / log of an empty store)
+const VARIANTS: [&str; 17] = ["new", "default", "capacity0", "capacity", "bloom", "bloom_tiny", "bloom_default", "instr", "bloom_instr",
+    "durable", "durable_bloom", "recovered", "recovered_snap", "recovered_bloom", "loaded", "loaded_bloom", "loaded_compressed"];
+
+fn has_filter(variant: &str) -> bool { variant.contains("bloom") }
+
+static SCRATCH_SEQ: std::sync::atomic::AtomicU64 = std::sync::atomic::AtomicU64::new(0);
+
+/// a private directory for one case (under the set's run directory; never wipes a sibling)
+fn scratch() -> std::path::PathBuf {
+    let n = SCRATCH_SEQ.fetch_add(1, std::sync::atomic::Ordering::Relaxed);
+    let p = run_dir().join(format!("v{n}"));
+    let _ = std::fs::create_dir_all(&p);
+    p
+}
+fn scratch_done(p: &std::path::Path) { let _ = std::fs::remove_dir_all(p); }
+fn run_dir() -> std::path::PathBuf {
+    let base = std::env::var("NEUMANN_VERIF_CACHE").unwrap_or_else(|_| "/var/tmp/neumann-verif".into());
+    std::path::PathBuf::from(base).join("run").join(format!("c08_rollback-{}", std::process::id()))
+}
+
+fn mk_store(variant: &str, dir: &std::path::Path, tag: &str) -> Result<TensorStore, String> {
+    let wal = dir.join(format!("{tag}.wal"));
+    let snap = dir.join(format!("{tag}.snap"));
+    let e = |x: &dyn std::fmt::Display| format!("constructor {variant}: {x}");
+    let empty_snapshot = || TensorStore::new().save_snapshot(&snap).map_err(|x| e(&x));
+    Ok(match variant {
+        "new" => TensorStore::new(),
+        "default" => TensorStore::default(),
+        "capacity0" => TensorStore::with_capacity(0),
+        "capacity" => TensorStore::with_capacity(4096),
+        "bloom" => TensorStore::with_bloom_filter(1000, 0.01),
+        "bloom_tiny" => TensorStore::with_bloom_filter(1, 0.5),
+        "bloom_default" => TensorStore::with_default_bloom_filter(),
+        "instr" => TensorStore::with_instrumentation(1),
+        "bloom_instr" => TensorStore::with_bloom_and_instrumentation(1000, 0.01, 1),
+        "durable" => TensorStore::open_durable(&wal, WalConfig::default()).map_err(|x| e(&x))?,
+        "durable_bloom" => TensorStore::open_durable_with_bloom(&wal, WalConfig::default(), 1000, 0.01).map_err(|x| e(&x))?,
+        "recovered" => TensorStore::recover(&wal, &WalConfig::default(), None).map_err(|x| e(&x))?,
+        "recovered_snap" => { empty_snapshot()?; TensorStore::recover(&wal, &WalConfig::default(), Some(&snap)).map_err(|x| e(&x))? },
+        "recovered_bloom" => TensorStore::recover_with_bloom(&wal, &WalConfig::default(), None, 1000, 0.01).map_err(|x| e(&x))?,
+        "loaded" => { empty_snapshot()?; TensorStore::load_snapshot(&snap).map_err(|x| e(&x))? },
+        "loaded_bloom" => { empty_snapshot()?; TensorStore::load_snapshot_with_bloom_filter(&snap, 1000, 0.01).map_err(|x| e(&x))? },
+        "loaded_compressed" => {
+            TensorStore::new().save_snapshot_compressed(&snap, tensor_compress::CompressionConfig::default()).map_err(|x| e(&x))?;
+            TensorStore::load_snapshot_compressed(&snap).map_err(|x| e(&x))?
+        },
+        v => return Err(format!("unknown store variant {v:?}")),
+    })
+}
+
+/// raw key universe of the "variants" cases: every key class that put/get reach (metadata slab, cache
+/// ring, embedding class with a slab-sized / a short / no `_embedding`), keys of the pre-state, keys
+/// written by the scripts, keys written after the restore, a key that never exists
+const RAW_KEYS: [&str; 15] = ["kv:k1", "kv:k2", "kv:post", "kv:x", "_cache:c1", "_cache:c2", "_cache:x", "emb:raw1", "emb:raw2", "emb:d3", "emb:plain",
+    "kv:new", "_cache:new", "emb:new", "kv:absent"];
+const RAW_PREFIXES: [&str; 8] = ["", "kv:", "_cache:", "emb:", "kv:k1", "emb:raw", "node:", "zz:"];
+
+/// exact rendering, except that the 384-d slab vector of an `emb:raw*` entry is left to C08.restore.slabs
+fn raw_str(k: &str, t: &TensorData) -> String {
+    if !k.starts_with("emb:raw") { return td_str(t); }
+    let mut f: Vec<String> = t.fields_iter().map(|(n, v)| if n == "_embedding" { format!("{n}=<slab vector, see C08.restore.slabs>") } else { format!("{n}={}", tv_str(v)) }).collect();
+    f.sort();
+    f.join(";")
+}
+
+fn raw_view(store: &TensorStore) -> View {
+    let mut v = View::new();
+    for k in RAW_KEYS {
+        v.push((format!("raw get({k})"), match store.get(k) { Ok(t) => format!("Ok({})", raw_str(k, &t)), Err(e) => format!("Err({e})") }));
+        v.push((format!("raw exists({k})"), store.exists(k).to_string()));
+    }
+    for p in RAW_PREFIXES {
+        v.push((format!("raw scan({p:?})"), format!("{:?}", sorted(store.scan(p)))));
+        v.push((format!("raw scan_count({p:?})"), store.scan_count(p).to_string()));
+        v.push((format!("raw scan_filter_map({p:?})"), format!("{:?}", sorted(store.scan_filter_map(p, |k, t| Some(format!("{k} => {}", raw_str(k, t))))))));
+    }
+    v.push(("raw len".into(), store.len().to_string()));
+    v.push(("raw is_empty".into(), store.is_empty().to_string()));
+    v
+}
+
+/// point lookups and scans must tell the same story about every key
+fn disagreements(store: &TensorStore) -> Vec<String> {
+    let mut out = vec![];
+    let listed: std::collections::BTreeSet<String> = store.scan("").into_iter().collect();
+    let mut keys: std::collections::BTreeSet<String> = listed.clone();
+    keys.extend(RAW_KEYS.iter().map(|k| (*k).to_string()));
+    for k in &keys {
+        let (ex, got, sc) = (store.exists(k), store.get(k).is_ok(), listed.contains(k));
+        if ex != got || ex != sc { out.push(format!("{k}: exists = {ex}, get is Ok = {got}, listed by scan(\"\") = {sc}")); }
+    }
+    for p in RAW_PREFIXES {
+        let (n, m) = (store.scan(p).len(), store.scan_count(p));
+        if n != m { out.push(format!("scan({p:?}) lists {n} keys, scan_count = {m}")); }
+        let want = listed.iter().filter(|k| k.starts_with(p)).count();
+        if n != want { out.push(format!("scan({p:?}) lists {n} keys, scan(\"\") has {want} with that prefix")); }
+    }
+    out
+}
+
+/// keys written after the restore behave normally (put / get / exists / scan / overwrite / delete),
+/// restored keys can be overwritten and deleted
+fn raw_usable(w: &World) -> Result<(), String> {
+    let s = &w.store;
+    let mut big = sval("fresh");
+    big.set("_embedding", TensorValue::Vector((0..384).map(|i| if i % 5 == 0 { 0.5 } else { 0.25 }).collect()));
+    let mut small = sval("fresh3");
+    small.set("_embedding", TensorValue::Vector(vec![1.0, 0.5, 0.25]));
+    let mut todo: Vec<(String, TensorData)> = vec![("kv:new".into(), sval("fresh")), ("_cache:new".into(), sval("fresh")), ("emb:new".into(), big), ("emb:new3".into(), small)];
+    // restored keys of each class, when present
+    for k in ["kv:k1", "_cache:c1", "emb:d3", "emb:plain", "kv:k2"] { if s.exists(k) { todo.push((k.to_string(), sval("overwritten"))); } }
+    for (k, t) in todo {
+        let prefix = &k[..k.find(':').map_or(k.len(), |i| i + 1)];
+        if !w.kput(k.clone(), t.clone()) { return Err(format!("put({k}) after the restore failed")); }
+        match s.get(&k) { Ok(g) if td_str(&g) == td_str(&t) => {}, o => return Err(format!("get({k}) after put = {:?}, expected {}", o.map(|g| td_str(&g)).map_err(|e| e.to_string()), td_str(&t))) }
+        if !s.exists(&k) { return Err(format!("exists({k}) = false right after put")); }
+        if !s.scan(prefix).contains(&k) || !s.scan("").contains(&k) { return Err(format!("{k} written after the restore is not listed by scan")); }
+        let n = s.scan_count(prefix);
+        if !w.kdel(&k) { return Err(format!("delete({k}) after the restore failed")); }
+        if s.get(&k).is_ok() || s.exists(&k) || s.scan(prefix).contains(&k) { return Err(format!("{k} still readable after delete: get is Ok = {}, exists = {}, listed = {}", s.get(&k).is_ok(), s.exists(&k), s.scan(prefix).contains(&k))); }
+        if s.scan_count(prefix) + 1 != n { return Err(format!("scan_count({prefix:?}) went from {n} to {} on delete({k})", s.scan_count(prefix))); }
+        if w.kdel(&k) { return Err(format!("second delete({k}) succeeded")); }
+    }
+    Ok(())
+}
+
+/// kind = "variants": {src, dst, pre, script, at}: the store is built by constructor `src`; pre-state and
+/// the first `at` ops, snapshot_bytes, the remaining ops ("further writes and deletes", also `clear`);
+/// then dst = "inplace": restore_from_bytes on the same store, otherwise into a fresh store built by
+/// constructor `dst` and read by new engines.
+fn eval_variants(case: &Value) -> Vec<Outcome> {
+    let script = script_of(case);
+    let at = (case["at"].as_u64().unwrap_or(0) as usize).min(script.len());
+    let src = case["src"].as_str().unwrap_or("new");
+    let dst = case["dst"].as_str().unwrap_or("inplace");
+    let inplace = dst == "inplace";
+    // the obligation is chosen by the INPUT class
+    let unseen = if inplace { has_filter(src) && script[at..].iter().any(|o| o == "clear") } else { has_filter(dst) };
+    let ob = if unseen { OB_UNSEEN } else { OB_VARIANTS };
+    let dir = scratch();
+    let out = (|| -> Vec<Outcome> {
+        let store = match mk_store(src, &dir, "src") { Ok(s) => s, Err(e) => return harness_err(ob, e) };
+        if !store.is_empty() || !store.scan("").is_empty() { return harness_err(ob, format!("constructor {src} did not give an empty store")); }
+        let w = World::on_store(store, src.starts_with("durable") || src.starts_with("recovered"));
+        if let Err(e) = w.build_pre(&case["pre"]) { return harness_err(ob, e); }
+        if case["pre"]["kv"] == true {
+            let mut d3 = sval("three");
+            d3.set("_embedding", TensorValue::Vector(vec![0.5, -1.0, 2.0]));
+            if !(w.kput("emb:d3".into(), d3) & w.kput("emb:plain".into(), sval("plain"))) { return harness_err(ob, "pre-state: emb keys".into()); }
+        }
+        for op in script.iter().take(at) { w.apply(op); }
+        let view = |w: &World| { let mut v = w.core_view(); v.extend(raw_view(&w.store)); v };
+        let v0 = view(&w);
+        let d0 = disagreements(&w.store);
+        let bytes = match w.store.snapshot_bytes() { Ok(b) => b, Err(e) => return vec![Outcome { ob, ok: false, detail: format!("snapshot_bytes failed: {e}"), nontrivial: false }] };
+        for op in script.iter().skip(at) { w.apply(op); }
+        let mut changed = view(&w) != v0;
+        let mut problems = vec![];
+        let target = if inplace { w } else {
+            let fresh = match mk_store(dst, &dir, "dst") { Ok(s) => s, Err(e) => return harness_err(ob, e) };
+            changed = true;
+            World::on_store(fresh, dst.starts_with("durable") || dst.starts_with("recovered"))
+        };
+        let how = if inplace { format!("in-place restore on a {src} store") } else { format!("restore into a fresh {dst} store") };
+        match target.store.restore_from_bytes(&bytes) {
+            Err(e) => problems.push(format!("{how}: restore_from_bytes failed: {e}")),
+            Ok(()) => {
+                let v1 = view(&target);
+                if v1 != v0 { problems.push(format!("{how}: {}", diff(&v0, &v1))); }
+                let d1: Vec<String> = disagreements(&target.store).into_iter().filter(|d| !d0.contains(d)).collect();
+                if !d1.is_empty() { problems.push(format!("{how}: point lookups and scans disagree: {}", d1.iter().take(4).cloned().collect::<Vec<_>>().join("; "))); }
+                if let Err(e) = raw_usable(&target) { problems.push(format!("{how}: {e}")); }
+                if let Err(e) = target.usable() { problems.push(format!("{how}: not usable afterwards: {e}")); }
+            },
+        }
+        vec![Outcome { ob, ok: problems.is_empty(), detail: problems.join(" || "), nontrivial: changed }]
+    })();
+    scratch_done(&dir);
+    out
+}
+
+// ---------------------------------------------------------------------------------------------
+// kind "choice": which checkpoint does a name designate
+// ---------------------------------------------------------------------------------------------
+
+/// distinct-state mutations applied after the creation of the 1st, 2nd, ... checkpoint (all enabled from the full pre-state)
+const CHOICE_MUTS: [&str; 4] = ["put_key", "ins_row", "add_node", "put_emb"];
+
+struct Made { id: String, name: String, view: View }
+
+/// name templates: a literal, "@id:<k>" = the id text of the checkpoint with name index k,
+/// "@idprefix:<k>" = the first 8 characters of that id (k must be created earlier)
+fn resolve_name(tpl: &str, made: &[Option<Made>]) -> Result<String, String> {
+    let of = |k: &str| -> Result<&Made, String> { k.parse::<usize>().ok().and_then(|k| made.get(k)).and_then(Option::as_ref).ok_or_else(|| format!("name template {tpl:?} refers to a checkpoint that is not created yet")) };
+    if let Some(k) = tpl.strip_prefix("@id:") { return Ok(of(k)?.id.clone()); }
+    if let Some(k) = tpl.strip_prefix("@idprefix:") { return Ok(of(k)?.id.chars().take(8).collect()); }
+    Ok(tpl.to_string())
+}
+
+/// kind = "choice": {driver, pre, names, order, targets, by}: checkpoint names[order[j]] is created at
+/// position j (the database is changed after every creation); then for every name index in `targets`,
+/// in turn, ROLLBACK TO <name> (by = "name"), <id> (by = "id") or first all names then all ids ("both").
+fn eval_choice(case: &Value) -> Vec<Outcome> {
+    let driver = case["driver"].as_str().unwrap_or("mgr_sep");
+    let names: Vec<String> = case["names"].as_array().map(|a| a.iter().filter_map(|x| x.as_str().map(str::to_string)).collect()).unwrap_or_default();
+    let idx = |f: &str| -> Vec<usize> { case[f].as_array().map(|a| a.iter().filter_map(|x| x.as_u64().map(|n| n as usize)).collect()).unwrap_or_default() };
+    let (order, targets) = (idx("order"), idx("targets"));
+    let by = case["by"].as_str().unwrap_or("both");
+    if order.len() != names.len() || sorted(order.clone()) != (0..names.len()).collect::<Vec<_>>() || names.len() > CHOICE_MUTS.len() { return harness_err(OB_CHOICE, "order must be a permutation of the name indices (at most 4 names)".into()); }
+    let w = match World::new(driver, 10) { Ok(w) => w, Err(e) => return harness_err(OB_CHOICE, e) };
+    if let Err(e) = w.build_pre(&case["pre"]) { return harness_err(OB_CHOICE, e); }
+    let mut made: Vec<Option<Made>> = names.iter().map(|_| None).collect();
+    for (pos, &ni) in order.iter().enumerate() {
+        let name = match resolve_name(&names[ni], &made) { Ok(n) => n, Err(e) => return harness_err(OB_CHOICE, e) };
+        let view = w.core_view();
+        match w.cp_create(&name) {
+            Ok(id) => made[ni] = Some(Made { id, name, view }),
+            Err(e) => return vec![Outcome { ob: OB_CHOICE, ok: false, detail: format!("checkpoint create {name:?} (position {pos}) failed: {e}"), nontrivial: false }],
+        }
+        w.apply(CHOICE_MUTS[pos]);
+    }
+    let made: Vec<Made> = made.into_iter().flatten().collect();
+    // preconditions of the case (harness): distinct names, distinct states
+    for i in 0..made.len() { for j in i + 1..made.len() {
+        if made[i].name == made[j].name { return harness_err(OB_CHOICE, format!("two checkpoints named {:?}: not part of this domain", made[i].name)); }
+        if made[i].view == made[j].view { return harness_err(OB_CHOICE, format!("checkpoints {:?} and {:?} have the same database state", made[i].name, made[j].name)); }
+    } }
+    let mut problems = vec![];
+    // every checkpoint is retained under exactly the name it was created with
+    match w.cp_list_named() {
+        Ok(l) => {
+            let got = sorted(l);
+            let want = sorted(made.iter().map(|m| (m.id.clone(), m.name.clone())).collect::<Vec<_>>());
+            if got != want { problems.push(format!("listed (id, name) pairs {got:?}, created {want:?}")); }
+        },
+        Err(e) => problems.push(format!("list failed: {e}")),
+    }
+    let mut texts: Vec<(usize, bool)> = vec![];
+    if by == "name" || by == "both" { texts.extend(targets.iter().map(|t| (*t, true))); }
+    if by == "id" || by == "both" { texts.extend(targets.iter().map(|t| (*t, false))); }
+    let mut changed = false;
+    for (t, by_name) in texts {
+        let Some(m) = made.get(t) else { continue };
+        let text = if by_name { &m.name } else { &m.id };
+        // the checkpoints this text designates (its own, plus one whose id / name is the same text)
+        let designated: Vec<&Made> = made.iter().filter(|c| &c.id == text || &c.name == text).collect();
+        let what = format!("ROLLBACK TO {} ({} of the checkpoint created as #{} of {:?})", lit(text), if by_name { "name" } else { "id" }, order.iter().position(|o| *o == t).unwrap_or(0), order.iter().map(|o| made[*o].name.as_str()).collect::<Vec<_>>());
+        if !designated.iter().any(|c| c.view == w.core_view()) { changed = true; }
+        match w.cp_rollback(text) {
+            Err(e) => { problems.push(format!("{what} failed: {e}")); if driver == "router" { break; } },
+            Ok(()) => {
+                let v1 = w.core_view();
+                if !designated.iter().any(|c| c.view == v1) {
+                    let other: Vec<&str> = made.iter().filter(|c| c.view == v1).map(|c| c.name.as_str()).collect();
+                    problems.push(format!("{what}: the database is {}; against the designated checkpoint: {}",
+                        if other.is_empty() { "not the state of any checkpoint".to_string() } else { format!("the state recorded for checkpoint {:?}", other[0]) }, diff(&designated[0].view, &v1)));
+                }
+                if let Err(e) = w.usable() { problems.push(format!("{what}: not usable afterwards: {e}")); }
+            },
+        }
+    }
+    vec![Outcome { ob: OB_CHOICE, ok: problems.is_empty(), detail: problems.join(" || "), nontrivial: changed }]
+}
+
 fn eval_case(case: &Value) -> Vec<Outcome> {
     match case["kind"].as_str().unwrap_or("") {
         "restore" => eval_restore(case),
         "rollback" => eval_rollback(case),
         "retention" => eval_retention(case),
         "repeat" => eval_repeat(case),
+        "variants" => eval_variants(case),
+        "choice" => eval_choice(case),
         k => vec![Outcome { ob: OB_RESTORE, ok: false, detail: format!("unknown case kind {k:?}"), nontrivial: false }],
     }
 }
@@ -711,6 +1034,83 @@ fn record(rep: &mut Report, case: &Value) {
     for o in outs { rep.check(o.ob, o.ok, &|| case.clone(), &|| o.detail.clone()); }
 }
 
+
+/// independent cases evaluated on `threads` worker threads (every case builds its own stores, engines
+/// and runtime from scratch, so the outcome of a case does not depend on the schedule); results in
+/// case order
+fn par_outcomes(cases: &[Value], threads: usize) -> Vec<Vec<Outcome>> {
+    let next = std::sync::atomic::AtomicUsize::new(0);
+    let slots: Vec<std::sync::Mutex<Option<Vec<Outcome>>>> = cases.iter().map(|_| std::sync::Mutex::new(None)).collect();
+    std::thread::scope(|sc| {
+        for _ in 0..threads.max(1) {
+            sc.spawn(|| loop {
+                let i = next.fetch_add(1, std::sync::atomic::Ordering::Relaxed);
+                if i >= cases.len() { break; }
+                let o = eval_case(&cases[i]);
+                *slots[i].lock().unwrap() = Some(o);
+            });
+        }
+    });
+    slots.into_iter().map(|m| m.into_inner().unwrap().unwrap_or_default()).collect()
+}
+
+fn perms(n: usize) -> Vec<Vec<usize>> {
+    fn rec(cur: &mut Vec<usize>, n: usize, out: &mut Vec<Vec<usize>>) {
+        if cur.len() == n { out.push(cur.clone()); return; }
+        for i in 0..n { if !cur.contains(&i) { cur.push(i); rec(cur, n, out); cur.pop(); } }
+    }
+    let mut out = vec![];
+    rec(&mut vec![], n, &mut out);
+    out
+}
+
+/// the cases of C08.restore.store_variants / filter_unseen and C08.rollback.choice_by_name
+fn extension_cases(full: &Value, thorough: bool) -> Vec<Value> {
+    let mut out = vec![];
+    // ---- store variants: in place after further writes / deletes (every single op, clear, three pairs around the snapshot)
+    let mut vscripts: Vec<(Vec<&str>, usize)> = OPS.iter().map(|o| (vec![*o], 0)).collect();
+    vscripts.push((vec!["clear"], 0));
+    vscripts.push((vec!["put_key", "del_key"], 1));
+    vscripts.push((vec!["del_key", "put_key"], 0));
+    vscripts.push((vec!["upd_key", "del_key"], 1));
+    vscripts.push((vec!["clear", "put_key"], 0));
+    for src in VARIANTS { for (s, at) in &vscripts {
+        out.push(json!({"kind": "variants", "src": src, "dst": "inplace", "pre": full, "script": s, "at": at}));
+    } }
+    // ---- store variants: into a fresh store of every variant
+    let srcs: Vec<&str> = if thorough { VARIANTS.to_vec() } else { vec!["new", "bloom", "durable"] };
+    for src in srcs { for dst in VARIANTS {
+        out.push(json!({"kind": "variants", "src": src, "dst": dst, "pre": full, "script": [], "at": 0}));
+        out.push(json!({"kind": "variants", "src": src, "dst": dst, "pre": full, "script": ["upd_key", "put_emb"], "at": 2}));
+    } }
+    // ---- choice by name
+    let long = "checkpoint-before-migration-"; // 28 characters
+    let mut families: Vec<Vec<String>> = vec![
+        vec!["v1".into(), "v10".into(), "v1.1".into()],
+        vec!["Nightly".into(), "nightly".into(), "NIGHTLY".into()],
+        vec!["rel 1".into(), "rel  1".into(), " rel 1".into()],
+        vec!["o'brien".into(), "o''brien".into(), "o\"brien".into()],
+        vec![format!("{long}1"), format!("{long}2"), format!("{long}10")],
+    ];
+    if thorough { families.push(vec!["a".into(), "ab".into(), "abc".into(), "Ab".into()]); }
+    for names in &families {
+        for (pi, order) in perms(names.len()).into_iter().enumerate() {
+            let mut targets: Vec<usize> = (0..names.len()).collect();
+            if pi % 2 == 1 { targets.reverse(); }
+            out.push(json!({"kind": "choice", "driver": "mgr_sep", "pre": full, "names": names, "order": order, "targets": targets, "by": "both"}));
+            for t in 0..names.len() { out.push(json!({"kind": "choice", "driver": "router", "pre": full, "names": names, "order": order, "targets": [t], "by": "name"})); }
+            out.push(json!({"kind": "choice", "driver": "router", "pre": full, "names": names, "order": order, "targets": [pi % names.len()], "by": "id"}));
+        }
+    }
+    // a name that is the id text (or a prefix of the id text) of an EARLIER checkpoint
+    let idnames = ["alpha", "@id:0", "@idprefix:0"];
+    for order in [[0usize, 1, 2], [0, 2, 1]] {
+        out.push(json!({"kind": "choice", "driver": "mgr_sep", "pre": full, "names": idnames, "order": order, "targets": [0, 1, 2], "by": "both"}));
+        for t in 0..3 { out.push(json!({"kind": "choice", "driver": "router", "pre": full, "names": idnames, "order": order, "targets": [t], "by": "name"})); }
+    }
+    out
+}
+
 /// checkpoint indices available for a script (one before each op, at most 3, at least 1), newest first
 fn desc(len: usize) -> Vec<usize> { (0..len.clamp(1, 3)).rev().collect() }
 
@@ -724,7 +1124,11 @@ quick: every script of length <= 2 over the 11 stated ops in which every op is e
 restore: snapshot before the script (+ snapshot after scripts of length <= 1, also restored into a fresh store); \
 rollback: driver mgr (CheckpointManager, blobs in the data store) on all 32 pre-states and driver router (text commands) on the 24 unindexed pre-states, one checkpoint before each op, \
 rollbacks newest to oldest (every checkpoint index); retention: pre-states {{empty, full}}, scripts of length 1..2, max_checkpoints 1..len; \
-repeat: full pre-state, scripts of length 1 (every cp) and 2 (cp 0), drivers mgr_sep (blobs in their own store) and router{}",
+repeat: full pre-state, scripts of length 1 (every cp) and 2 (cp 0), drivers mgr_sep (blobs in their own store) and router. \
+variants: full pre-state + emb:d3/emb:plain on each of the 17 TensorStore constructors {{new, default, with_capacity(0|4096), with_bloom_filter(1000,0.01|1,0.5), with_default_bloom_filter, with_instrumentation, \
+with_bloom_and_instrumentation, open_durable, open_durable_with_bloom, recover (no / empty snapshot), recover_with_bloom, load_snapshot, load_snapshot_with_bloom_filter, load_snapshot_compressed}}: \
+in place after each of the 14 ops / clear / 4 pairs around the snapshot; into a fresh store of each of the 17 constructors from src {{new, bloom, durable}} (2 snapshot positions). \
+choice: 5 families of 3 related checkpoint names (prefix, case, spaces, quotes, >28 chars) x all 6 creation orders + the id-text family (2 orders): mgr_sep every target by name then by id, router one rollback per world (every target by name, one by id){}",
                  if thorough { ". thorough: additionally every (also disabled-op) script of length <= 2 over all 14 ops with every snapshot position / fresh restore, single-checkpoint rollbacks [0], \
 2 checkpoint/rollback cycles (router: 24 unindexed pre-states; scripts with a disabled op: restore + mgr, 1 cycle); enabled scripts of length 3 over the 11 stated ops (mgr on the 24 unindexed pre-states + full indexed; restore, router and retention with 4 checkpoints on the 2 full pre-states); retention on all 32 pre-states (mgr) with length <= 2; \
 plus 600 seeded random cases with scripts of length 4..5 (not exhaustive)" } else { "" }),
@@ -739,6 +1143,9 @@ plus 600 seeded random cases with scripts of length 4..5 (not exhaustive)" } els
     rep.declare(OB_RETAIN, "RetentionManager::enforce via CheckpointManager::create");
     rep.declare(OB_RETAIN_RB, "CheckpointManager::rollback on retained checkpoints");
     rep.declare(OB_REPEAT, "CheckpointManager::rollback / QueryRouter ROLLBACK TO");
+    rep.declare(OB_VARIANTS, "TensorStore::restore_from_bytes on every TensorStore constructor");
+    rep.declare(OB_UNSEEN, "TensorStore::restore_from_bytes into a store whose Bloom filter has not seen the keys");
+    rep.declare(OB_CHOICE, "CheckpointManager::rollback(name | id) / QueryRouter ROLLBACK TO '<name>'");
 
     let pres = pre_states();
     let full = json!({"rows": 2, "idx": false, "graph": true, "emb": true, "kv": true});
@@ -772,6 +1179,15 @@ plus 600 seeded random cases with scripts of length 4..5 (not exhaustive)" } els
     rep.sample(json!({"kind": "rollback", "driver": "router", "pre": full, "script": ["del_node", "put_emb"], "cps": [1, 0], "cycles": 1}));
     rep.sample(json!({"kind": "retention", "driver": "mgr", "pre": full, "script": ["ins_row", "del_key"], "max": 2, "reps": 3}));
     rep.sample(json!({"kind": "repeat", "driver": "router", "pre": full, "script": ["ins_row"], "cp": 0}));
+
+    // ---- store constructor variants, related checkpoint names (both tiers; worker threads, see par_outcomes)
+    let ext = extension_cases(&full, thorough);
+    for (case, outs) in ext.iter().zip(par_outcomes(&ext, 8)) {
+        rep.eval(outs.iter().any(|o| o.nontrivial));
+        for o in outs { rep.check(o.ob, o.ok, &|| case.clone(), &|| o.detail.clone()); }
+    }
+    rep.sample(json!({"kind": "variants", "src": "bloom", "dst": "inplace", "pre": full, "script": ["del_key"], "at": 0}));
+    rep.sample(json!({"kind": "choice", "driver": "mgr_sep", "pre": full, "names": ["v1", "v10", "v1.1"], "order": [0, 1, 2], "targets": [0, 1, 2], "by": "both"}));
 
     // ---- thorough -------------------------------------------------------------------------------
     if thorough {
@@ -824,6 +1240,7 @@ plus 600 seeded random cases with scripts of length 4..5 (not exhaustive)" } els
 
 pub fn replay(ob: &str, case: &Value) -> Result<String, String> {
     let outs = eval_case(case);
+    let _ = std::fs::remove_dir(run_dir()); // the parent of a "variants" case's scratch directory (empty by now)
     let mine: Vec<&Outcome> = outs.iter().filter(|o| o.ob == ob).collect();
     if mine.is_empty() { return Err(format!("case kind {:?} does not evaluate obligation {ob}", case["kind"])); }
     match mine.iter().find(|o| !o.ok) {
